@@ -86,6 +86,14 @@ fn families(tier: &Tier) -> Vec<(Box<dyn Family>, u64)> {
         (Box::new(Grid::f1().with_root(RootMenu::Full)), 1),
         (Box::new(Decorated::new("F3 skeletons", skeletons(), if q { 1 } else { 2 }, false, &|_| true)), 1),
         (crate::plans::f4(tier), if q { 257 } else { 17 }),
+        // several independent dead ends at once (exclusions, unknown dependencies, requirements without
+        // candidates): the order in which such assertions are applied must not show in the result
+        (
+            Box::new(Decorated::new("F3 skeletons x dead-end decorations", skeletons(), if q { 2 } else { 3 }, false, &|d| {
+                matches!(d, Deco::Exclude(_, true) | Deco::Unknown(_) | Deco::AddReq(_, VsSpec::Empty(_)) | Deco::AddReq(_, VsSpec::Missing) | Deco::Lock(_))
+            })),
+            1,
+        ),
     ]
 }
 
